@@ -570,6 +570,40 @@ pub struct PlanStats {
     pub had_to_delay: bool,
 }
 
+/// Is `route` exactly the sequence of arrive events of some walk from the start node to the end node of `net`?
+fn route_is_complete_walk_of_net(net: &EstTimeNet, route: &[u32]) -> bool {
+    let v = &net.val;
+    let n = v.len();
+    if n == 0 {
+        return false;
+    }
+    let mut seen = std::collections::HashSet::new();
+    let mut stack: Vec<(usize, usize)> = vec![(0, 0)];
+    while let Some((i, mut pos)) = stack.pop() {
+        if i >= n || !seen.insert((i, pos)) {
+            continue;
+        }
+        if v[i].link_event.est_type == EstType::Arrive {
+            if pos < route.len() && route[pos] == v[i].link_event.link_idx.idx() as u32 {
+                pos += 1;
+            } else {
+                continue;
+            }
+        }
+        if v[i].idx_next == 0 {
+            if i == n - 1 && pos == route.len() {
+                return true;
+            }
+            continue;
+        }
+        stack.push((v[i].idx_next as usize, pos));
+        if v[i].idx_next_alt != 0 {
+            stack.push((v[i].idx_next_alt as usize, pos));
+        }
+    }
+    false
+}
+
 pub fn check_plan(ctx: &mut Ctx, inst: &Instance, out: &DispatchOutcome, nets: &[EstTimeNet], info: &Value) -> PlanStats {
     let mut stats = PlanStats { opposing_pairs: 0, followers: 0, had_to_delay: false };
     let links = &inst.links;
@@ -670,11 +704,12 @@ pub fn check_plan(ctx: &mut Ctx, inst: &Instance, out: &DispatchOutcome, nets: &
             bad(ctx, "starts_after_departure", format!("first arrival {} before departure {}", route[0].time.value, tc.depart));
         }
         if !tc.dests.contains(&(route.last().unwrap().link_idx.idx() as u32)) {
-            // recorded finding, exact condition: the train's own estimated-time network has no arrive event on any
-            // destination link (see C15:route_not_to_destination:free_run_stalls_inside_final_braking_curve), so
-            // dispatch cannot route it further
-            let net_reaches_dest = nets.get(k).map(|n| n.val.iter().any(|e| e.link_event.est_type == EstType::Arrive && tc.dests.contains(&(e.link_event.link_idx.idx() as u32)))).unwrap_or(true);
-            bad(ctx, if !net_reaches_dest { "ends_on_destination:est_time_net_has_no_destination_event" } else { "ends_on_destination" }, format!("route ends on link {} but destinations are {:?}", route.last().unwrap().link_idx.idx(), tc.dests));
+            // recorded finding, exact condition: the returned route is, event for event, a complete start-to-end walk
+            // of the train's own estimated-time network - the network itself ends short of the destination on that
+            // walk (see C15:route_not_to_destination:free_run_stalls_inside_final_braking_curve); dispatch followed it
+            let route_links: Vec<u32> = route.iter().map(|x| x.link_idx.idx() as u32).collect();
+            let faithful = nets.get(k).map(|n| route_is_complete_walk_of_net(n, &route_links)).unwrap_or(false);
+            bad(ctx, if faithful { "ends_on_destination:route_is_a_complete_walk_of_an_est_time_net_that_ends_short" } else { "ends_on_destination" }, format!("route ends on link {} but destinations are {:?}", route.last().unwrap().link_idx.idx(), tc.dests));
         }
         for w in route.windows(2) {
             let l = &links[w[0].link_idx.idx()];
